@@ -278,7 +278,6 @@ NEEDS = {
     "C10-8B": "log save() stores the float base in the integer args array (promoted to float64): max_count above 2^53 comes back changed, merge with the original refused",
     "C12-8B": "HeavyHitters._add_ngram clamps ngram to max_key_len before counting windows: ngram > max_key_len on a key longer than max_key_len",
     "C13-8B": "vectorised generate_candidate_set de-duplicates on the zero-padded key bytes only: stored keys that differ in trailing NULs collapse into one",
-    "C16-8B": "HeavyHitters.merge into a still-empty sketch rebinds lhh / lhh_count / key_lens to copies: a shared-memory owner or view silently leaves its block",
     "C19-7A": "the dying worker is worker 00 (`if failed_worker:` is falsy for index 0)",
 }
 
